@@ -161,7 +161,9 @@ func positions() []position {
 	add("call_classifier.input", m, "", func(t string) J {
 		return act("call_classifier", J{"classifier": J{"uuid": uuid("classifier"), "name": "Booking"}, "input": t, "result_name": "Intent"})
 	})
-	add("call_webhook.url", m, "", func(t string) J { return act("call_webhook", J{"method": "GET", "url": "http://x.test/" + t, "result_name": "Call"}) })
+	add("call_webhook.url", m, "", func(t string) J {
+		return act("call_webhook", J{"method": "GET", "url": "http://x.test/" + t, "result_name": "Call"})
+	})
 	add("call_webhook.body", m, "", func(t string) J {
 		return act("call_webhook", J{"method": "POST", "url": "http://x.test/", "body": t, "result_name": "Call"})
 	})
@@ -186,23 +188,33 @@ func positions() []position {
 	add("send_broadcast.quick_replies", m, "quick_replies", func(t string) J {
 		return act("send_broadcast", J{"text": "hi", "quick_replies": []any{"yes", t}, "groups": []any{J{"uuid": uuid("group"), "name": "Testers"}}})
 	})
-	add("send_broadcast.contact_query", m, "", func(t string) J { return act("send_broadcast", J{"text": "hi", "contact_query": "name = \"" + t + "\""}) })
+	add("send_broadcast.contact_query", m, "", func(t string) J {
+		return act("send_broadcast", J{"text": "hi", "contact_query": "name = \"" + t + "\""})
+	})
 	add("send_broadcast.groups.name_match", m, "", func(t string) J { return act("send_broadcast", J{"text": "hi", "groups": []any{J{"name_match": t}}}) })
 	add("send_broadcast.legacy_vars", m, "", func(t string) J { return act("send_broadcast", J{"text": "hi", "legacy_vars": []any{t}}) })
 	add("send_email.addresses", m, "", func(t string) J { return act("send_email", J{"addresses": []any{t}, "subject": "s", "body": "b"}) })
-	add("send_email.subject", m, "subject", func(t string) J { return act("send_email", J{"addresses": []any{"a@x.test"}, "subject": t, "body": "b"}) })
-	add("send_email.body", m, "body", func(t string) J { return act("send_email", J{"addresses": []any{"a@x.test"}, "subject": "s", "body": t}) })
+	add("send_email.subject", m, "subject", func(t string) J {
+		return act("send_email", J{"addresses": []any{"a@x.test"}, "subject": t, "body": "b"})
+	})
+	add("send_email.body", m, "body", func(t string) J {
+		return act("send_email", J{"addresses": []any{"a@x.test"}, "subject": "s", "body": t})
+	})
 	add("send_msg.text", m, "text", func(t string) J { return act("send_msg", J{"text": t}) })
 	add("send_msg.attachments", m, "attachments", func(t string) J {
 		return act("send_msg", J{"text": "hi", "attachments": []any{"image/jpeg:http://x.test/" + t}})
 	})
 	add("send_msg.quick_replies", m, "quick_replies", func(t string) J { return act("send_msg", J{"text": "hi", "quick_replies": []any{t, "no"}}) })
-	add("set_contact_field.value", m, "", func(t string) J { return act("set_contact_field", J{"field": J{"key": "gender", "name": "Gender"}, "value": t}) })
+	add("set_contact_field.value", m, "", func(t string) J {
+		return act("set_contact_field", J{"field": J{"key": "gender", "name": "Gender"}, "value": t})
+	})
 	add("set_contact_language.language", m, "", func(t string) J { return act("set_contact_language", J{"language": t}) })
 	add("set_contact_name.name", m, "", func(t string) J { return act("set_contact_name", J{"name": t}) })
 	add("set_contact_timezone.timezone", m, "", func(t string) J { return act("set_contact_timezone", J{"timezone": t}) })
 	add("set_run_result.value", m, "", func(t string) J { return act("set_run_result", J{"name": "Result", "value": t, "category": "Cat"}) })
-	add("start_session.contact_query", m, "", func(t string) J { return act("start_session", J{"flow": flowRef, "contact_query": "name = \"" + t + "\""}) })
+	add("start_session.contact_query", m, "", func(t string) J {
+		return act("start_session", J{"flow": flowRef, "contact_query": "name = \"" + t + "\""})
+	})
 	add("start_session.groups.name_match", m, "", func(t string) J { return act("start_session", J{"flow": flowRef, "groups": []any{J{"name_match": t}}}) })
 	add("start_session.legacy_vars", m, "", func(t string) J { return act("start_session", J{"flow": flowRef, "legacy_vars": []any{t}}) })
 	// routers
@@ -452,13 +464,13 @@ func familyLanguage(emit func(*source)) {
 func nameForms(limit int, categories bool) map[string]string {
 	rep := func(s string, n int) string { return strings.Repeat(s, n) }
 	m := map[string]string{
-		"at-limit":             rep("a", limit),
-		"limit+1":              rep("a", limit+1),
-		"long":                 rep("Ab 9-_", 20),
-		"space-at-limit":       rep("a", limit-1) + " " + rep("b", 10),
-		"spaces-around-limit":  rep("a", limit-3) + "      " + rep("b", 10),
-		"leading-space-long":   "  " + rep("a", limit+5),
-		"short":                "Ok",
+		"at-limit":            rep("a", limit),
+		"limit+1":             rep("a", limit+1),
+		"long":                rep("Ab 9-_", 20),
+		"space-at-limit":      rep("a", limit-1) + " " + rep("b", 10),
+		"spaces-around-limit": rep("a", limit-3) + "      " + rep("b", 10),
+		"leading-space-long":  "  " + rep("a", limit+5),
+		"short":               "Ok",
 	}
 	if categories {
 		m["multibyte-long"] = rep("é", limit+4)
